@@ -1,7 +1,7 @@
 SPECIFICATION JSpec
 CONSTANTS
-    Inputs <- MCInputs2x3
-    Configs <- MCConfigs2
+    Inputs <- MCInputsQuick
+    Configs <- MCConfigsQuick
 INVARIANTS
     JoinPairing
     Confluence
